@@ -182,6 +182,43 @@ Section Main.
       destruct (ts_in_range s ns); [reflexivity|exact I].
   Qed.
 
+  (* The label table model_repr (the one the Go switch tables are proved to agree with) is what
+     enc_scalar does: per kind, the shape of every successful output. *)
+  Definition repr_holds (r : arm_repr) (is32 : bool) (txt : bytes) : Prop :=
+    match r with
+    | RBare => exists z, txt = print_Z z
+    | RQuoted => exists z, txt = quote (print_Z z)
+    | RFloat => (exists bits, txt = fmt_float is32 bits) \/ txt = quote txt_NaN \/
+                txt = quote txt_Infinity \/ txt = quote (45 :: txt_Infinity)
+    | RBoolLit => txt = [116; 114; 117; 101] \/ txt = [102; 97; 108; 115; 101]
+    | RString => exists s, valid_utf8 s = true /\ txt = print (JStr s)
+    | RUnknown => False
+    end.
+
+  Theorem enc_scalar_repr k v txt :
+    enc_scalar k v = Ok txt ->
+    repr_holds (model_repr k) (match k with KFloat32 => true | _ => false end) txt.
+  Proof.
+    intros H. destruct k, v; cbn [CodecEnc.enc_scalar] in H; try discriminate; cbn [model_repr repr_holds].
+    - injection H as <-. eauto.
+    - injection H as <-. eauto.
+    - injection H as <-. eauto.
+    - injection H as <-. eauto.
+    - injection H as <-. unfold enc_float. destruct (float_is_nan true bits); [tauto|].
+      destruct (float_is_inf true bits); [destruct (float_negative true bits); tauto|]. left. eauto.
+    - injection H as <-. unfold enc_float. destruct (float_is_nan false bits); [tauto|].
+      destruct (float_is_inf false bits); [destruct (float_negative false bits); tauto|]. left. eauto.
+    - injection H as <-. destruct b; tauto.
+    - apply escape_ok in H as [Hv ->]. eauto.
+    - apply escape_ok in H as [Hv ->]. eauto.
+    - apply escape_ok in H as [Hv ->]. eauto.
+    - apply obind_ok in H as (y & Hy & H). apply obind_ok in H as (mo & Hmo & H).
+      apply obind_ok in H as (d & Hd & H). apply escape_ok in H as [Hv ->]. eauto.
+    - apply obind_ok in H as (s & Hs & H). apply escape_ok in H as [Hv ->]. eauto.
+    - apply obind_ok in H as (s & Hs & H). apply obind_ok in H as (ns & Hns & H).
+      apply escape_ok in H as [Hv ->]. eauto.
+  Qed.
+
   (* ---------------------------------------------------------------- presence *)
   (* oneofs reached through exposure list members with a proto path *)
   Definition oneofs_flat : Prop :=
